@@ -684,6 +684,33 @@ theorem case_insensitive (s : Sheet) (h : Dense s.rows) (name : List Char) (ci r
   ⟨XlModel.Props.C20.upper_same_cell name ci ri hn, XlModel.Props.C20.spellings_same_cell name ci ri hn,
    (last_writer_wins s h k ci.toNat ri.toNat t v hc hr ha).2.2⟩
 
+/-! ## formulas -/
+
+/-- `SetCellFormula` leaves the old value behind as the cached result: the types it treats specially are
+exactly the shared-string and the boolean tag (extracted `switch c.T` labels); a shared-string cell gets the
+text of its item (the item's token without the kind letter) with type "str", a boolean keeps type and value,
+any other cell keeps its value text and is typed "str"; in all cases the formula is the one written. -/
+theorem formula_cached_value (sst : List Tok) (fm : Tok) (v : CellV) (hfm : fm ≠ "") :
+    Facts.C03.formulaSwitchCases = [Facts.C03.sstTag, Facts.C03.boolTag] ∧
+    (formulaWrite sst fm v).f = some fm ∧ (formulaWrite sst fm v).s = v.s ∧
+    (v.t = Facts.C03.boolTag → (formulaWrite sst fm v).t = Facts.C03.boolTag ∧ (formulaWrite sst fm v).v = v.v) ∧
+    (v.t ≠ Facts.C03.sstTag → v.t ≠ Facts.C03.boolTag →
+      (formulaWrite sst fm v).t = Facts.C03.formulaTag ∧ (formulaWrite sst fm v).v = v.v) ∧
+    (∀ e, v.t = Facts.C03.sstTag → v.v ≠ "" → sstEntry? sst v.v = some e → String.ofList (e.toList.drop 1) ≠ "-" →
+      (formulaWrite sst fm v).t = Facts.C03.formulaTag ∧ (formulaWrite sst fm v).v = String.ofList (e.toList.drop 1)) := by
+  refine ⟨by decide, ?_, ?_, ?_, ?_, ?_⟩
+  · simp only [formulaWrite, hfm, if_false, formulaRetype]; split <;> (try split) <;> rfl
+  · simp only [formulaWrite, hfm, if_false, formulaRetype]; split <;> (try split) <;> rfl
+  · intro hb
+    have hns : ¬ Facts.C03.boolTag = Facts.C03.sstTag := by decide
+    simp [formulaWrite, hfm, formulaRetype, hb, hns]
+  · intro h1 h2
+    simp [formulaWrite, hfm, formulaRetype, h1, h2]
+  · intro e h1 h2 h3 h4
+    have h5 : ¬ String.ofList (e.toList).tail = "-" := by simpa using h4
+    simp [formulaWrite, hfm, formulaRetype, h1, h2, h3]
+    intro hh; exact absurd hh h5
+
 /-! ## hyperlinks -/
 
 /-- clause "SetCellHyperLink … reads back exactly the last payload", with the merge redirect: after
